@@ -415,6 +415,7 @@ func Main(p *Prop) {
 		raceExe  = flag.String("race-exe", "", "path of the -race build of this executable")
 		needRace = flag.Bool("needs-race", false, "print whether this check wants a -race build")
 		only     = flag.Int("case", -1, "run only this case index (debugging)")
+		evDirF   = flag.String("evidence-dir", "", "write the evidence file here instead of <verif-dir>/evidence (monitor validation against scratch copies)")
 	)
 	flag.Parse()
 	if *needRace {
@@ -712,6 +713,9 @@ func Main(p *Prop) {
 	}
 	if *only < 0 {
 		evDir := filepath.Join(*verifDir, "evidence")
+		if *evDirF != "" {
+			evDir = *evDirF
+		}
 		os.MkdirAll(evDir, 0o755)
 		b, _ := json.MarshalIndent(ev, "", " ")
 		os.WriteFile(filepath.Join(evDir, p.ID+".json"), append(b, '\n'), 0o644)
